@@ -12,6 +12,7 @@ Decider in every leg: final exit status and final file contents against the mode
     status = 2 if any missing path / unparseable file / crashing job, else 1 if --check and a file differs, else 0
 and against the single-thread run. Status decreases seen in a trace are reported as diagnosis only.
 """
+import posixpath
 import concurrent.futures as cf
 import itertools
 import os
@@ -57,11 +58,11 @@ OP_SKIP = ("submit", "diverged", "begin", "end")
 # scenarios
 # ------------------------------------------------------------------------------------------------
 
-def item_content(cls, k, ref):
+def item_content(cls, k, ref, cfg=None):
     if cls == "U":
         return clilib.lua_unformatted(k).encode()
     if cls == "F":
-        r = ref.format(clilib.lua_unformatted(k), clilib.cfg())
+        r = ref.format(clilib.lua_unformatted(k), clilib.cfg(**(cfg or {})))
         return r[1].encode()
     if cls == "X":
         return clilib.lua_unparseable(k).encode()
@@ -93,9 +94,43 @@ def expected(scn, ref):
             continue
         b = L.dec(scn["files"][n])
         if cls == "U" and not check:
-            b = ref.format(b, clilib.cfg())[1].encode()
+            b = ref.format(b, clilib.cfg(**file_cfg(scn, n)))[1].encode()
         files[n] = b
+    # configuration files are never touched
+    for n in scn["files"]:
+        if n not in files:
+            files[n] = L.dec(scn["files"][n])
     return rc, files
+
+
+def file_cfg(scn, name):
+    """Overrides of the nearest configured directory at or above the file (scn["cfgs"]: dir -> overrides)."""
+    cfgs = scn.get("cfgs") or {}
+    d = posixpath.dirname(name)
+    while True:
+        if d in cfgs:
+            return cfgs[d]
+        if d in ("", "."):
+            return cfgs.get(".", {}) if d == "" else {}
+        d = posixpath.dirname(d)
+
+
+# per-directory configurations for the sweep trees: every option at a non-default value somewhere
+DIR_CFG_POOL = [
+    {"line_endings": "Windows"},
+    {"indent_type": "Spaces", "indent_width": 2},
+    {"quote_style": "ForceSingle", "column_width": 40},
+    {"call_parentheses": "None", "collapse_simple_statement": "Always"},
+    {"line_endings": "Windows", "indent_type": "Spaces", "indent_width": 3, "quote_style": "AutoPreferSingle"},
+    {"space_after_function_names": "Always", "column_width": 60},
+]
+
+
+def toml_for(ov):
+    out = []
+    for k, v in ov.items():
+        out.append(f"{k} = {v}" if isinstance(v, int) and not isinstance(v, bool) else f'{k} = "{v}"')
+    return "\n".join(out) + "\n"
 
 
 class Res:
@@ -163,7 +198,7 @@ def judge(scn, exp, res, how):
     dec_ = [f"{cls} {what}" for _, cls, what in res.events
             if len(what.split()) == 3 and what.split()[1].lstrip("-").isdigit() and what.split()[2].lstrip("-").isdigit()
             and int(what.split()[2]) < int(what.split()[1])]
-    case = {"scenario": {k: scn[k] for k in ("name", "mode", "items", "files", "argv")}, "how": how}
+    case = {"scenario": {k: scn[k] for k in ("name", "mode", "items", "files", "argv", "cfgs") if k in scn}, "how": how}
     if res.rc != exp_rc:
         kind = "masked" if (res.rc is not None and res.rc < exp_rc) else "wrong"
         diag = f"; the trace shows the status DEcreasing at: {dec_}" if dec_ else ""
@@ -358,16 +393,28 @@ SPECS_MORE = ["CU", "XUU", "UmX", "mXU", "FUm", "UFm", "UUU", "UUUm", "mUUU", "U
 # (b) sweep
 # ------------------------------------------------------------------------------------------------
 
-def big_tree(rng, n, ref, tag):
-    """A tree of n files of mixed classes in directories, walked through directory arguments, plus missing paths."""
+def big_tree(rng, n, ref, tag, configured=False):
+    """A tree of n files of mixed classes in directories, walked through directory arguments, plus missing paths.
+    configured: directories carry their own stylua.toml with different option values, so that the
+    text a file gets depends on its directory - and must not depend on which worker formats it, or
+    on what that worker formatted before."""
     items, files, argv = [], {}, []
     dirs = ["d0", "d1", "d1/sub", "d2"]
     weights = "UUUUFFFXC"
+    cfgs = {}
+    if configured:
+        pool = list(DIR_CFG_POOL)
+        for d in dirs:
+            if d == "d1/sub" and rng.chance(1, 2):
+                continue  # inherits d1's
+            cfgs[d] = pool.pop(rng.below(len(pool)))
+            files[d + "/stylua.toml"] = L.enc(toml_for(cfgs[d]).encode())
+    scn_cfg = {"cfgs": cfgs}
     for k in range(n):
         cls = rng.pick(weights)
         name = f"{rng.pick(dirs)}/f{k}_{cls}.lua"
         items.append([name, cls])
-        files[name] = L.enc(item_content(cls, k, ref))
+        files[name] = L.enc(item_content(cls, k, ref, file_cfg(scn_cfg, name)))
     argv = ["d0", "missing_first.lua"] if rng.chance(1, 2) else ["d0"]
     argv += ["d1", "d2"]
     if rng.chance(1, 2):
@@ -375,7 +422,7 @@ def big_tree(rng, n, ref, tag):
     for a in argv:
         if a.startswith("missing"):
             items.append([a, "m"])
-    return {"name": f"tree{n}-{tag}", "items": items, "files": files, "argv": argv}
+    return {"name": f"tree{n}-{tag}", "items": items, "files": files, "argv": argv, "cfgs": cfgs}
 
 
 def with_mode(scn, mode):
@@ -489,9 +536,11 @@ def run(tier, seed):
         prng = clilib.Rng(190019)  # pinned trees
         sweep_scns += [with_mode(big_tree(prng, 24, ref, "pinned"), m) for m in ("check", "write")]
         sweep_scns += [with_mode(big_tree(prng, 40, ref, "pinned"), m) for m in ("check", "write")]
+        cprng = clilib.Rng(190020)  # pinned trees with per-directory configuration
+        sweep_scns += [with_mode(big_tree(cprng, 32, ref, "pinned-configured", configured=True), m) for m in ("check", "write")]
         srng = clilib.Rng(seed * 1000003 + 19)
         for j in range(1 if quick else 3):
-            t = big_tree(srng, 20 + srng.below(21), ref, f"seed{seed}.{j}")
+            t = big_tree(srng, 20 + srng.below(21), ref, f"seed{seed}.{j}", configured=(j % 2 == 0))
             sweep_scns += [with_mode(t, m) for m in ("check", "write")]
         threads_list = [1, 2, 3, 4, 8, 16] if quick else list(range(1, 17))
         reps = 2 if quick else 20
@@ -522,7 +571,7 @@ def run(tier, seed):
             if not f and (r.rc != rr.rc or r.files != rr.files):
                 f = [{"oracle": "same-as-single-thread", "signature": "C19:differs-from-single-thread-run",
                       "detail": f"{scn['name']} threads={n} jitter={jit}: exit {r.rc} vs {rr.rc}",
-                      "case": {"scenario": {k: scn[k] for k in ("name", "mode", "items", "files", "argv")}, "how": f"threads={n} jitter={jit}"}}]
+                      "case": {"scenario": {k: scn[k] for k in ("name", "mode", "items", "files", "argv", "cfgs") if k in scn}, "how": f"threads={n} jitter={jit}"}}]
             return f
 
         with cf.ThreadPoolExecutor(max_workers=svlib.NCPU) as pool:
@@ -590,7 +639,7 @@ def run(tier, seed):
                 for (kind, frames), (scn, n, text) in reports.items():
                     out["findings"].append({"oracle": "thread-sanitizer", "signature": "C19:tsan:" + kind.replace(" ", "-") + ":" + "|".join(frames),
                                             "detail": f"{scn['name']} threads={n}: {text}",
-                                            "case": {"scenario": {k: scn[k] for k in ("name", "mode", "items", "files", "argv")}, "how": f"tsan threads={n}"}})
+                                            "case": {"scenario": {k: scn[k] for k in ("name", "mode", "items", "files", "argv", "cfgs") if k in scn}, "how": f"tsan threads={n}"}})
                 tsan_info = {"ran": True, "runs": ran, "distinct_reports": len(reports)}
                 counters["tsan.runs"] = ran
         out["extra_coverage"] = {
